@@ -29,8 +29,8 @@
 //!    integer, which must be smaller than the Jubjub scalar field order.
 
 use group::{Group, GroupEncoding};
-use midnight_circuits::{ecc::curves::CircuitCurve, instructions::AssignmentInstructions};
-use midnight_curves::{Fr as JubjubScalar, JubjubExtended, JubjubSubgroup};
+use midnight_circuits::instructions::AssignmentInstructions;
+use midnight_curves::{Fr as JubjubScalar, JubjubSubgroup};
 use midnight_proofs::circuit::Layouter;
 use midnight_zk_stdlib::ZkStdLib;
 use num_bigint::BigUint;
@@ -140,9 +140,9 @@ pub fn parse_jubjub_point(str: &str) -> Result<JubjubSubgroup, Error> {
                 .map_err(|e| Error::Other(format!("{e:?}")))?
                 .try_into()
                 .map_err(|_| Error::ParsingError(IrType::JubjubPoint, str.to_string()))?;
-            JubjubExtended::from_bytes(&bytes)
+            // (This also rejects points of the curve outside of the prime-order subgroup.)
+            JubjubSubgroup::from_bytes(&bytes)
                 .into_option()
-                .map(|p| p.into_subgroup())
                 .ok_or(Error::ParsingError(IrType::JubjubPoint, str.to_string()))
         }
     }
